@@ -88,9 +88,40 @@ def h_children_reading(ctx):
     ctx.check('lemma.children_ok.step', R(k + 1), 'auxiliary')
 
 
+def h_evaluate_yields_values(ctx):
+    """TransactionEvaluator.evaluate(node) - the one door every sub-expression's value comes through - never hands out a generator object (an
+    interpreter internal whose str() would land in tags, fields and reports): a generator produced by an _eval_ method is consumed into a list there.
+    Only evaluate(node, lazy=True) may return one; the clause evaluate#lazy_only_for_consuming_functions confines that to the arguments of
+    sum / any / all / next / min / max."""
+    sp = Spec()
+    sp.exc_table.update({'ExpressionError': 'Exception'})
+    I = Interp(ctx, sp)
+    is_gen = UF('isinstance_GeneratorType', ObjS, BoolS)
+    node = Obj(ctx.fresh('node', ObjS), 'ast.AST')
+    me = Rec('TransactionEvaluator', {'ctx': Untracked(), '_scope': Untracked()})
+    sp.models['hasattr'] = Func(lambda I_, a, k, n: UF('hasattr', StrS, BoolS)(to_z3(a[1], StrS)))
+    sp.models['getattr'] = Func(lambda I_, a, k, n: Func(lambda I2, a2, k2, n2: Obj(I2.fresh('value', ObjS), 'pyvalue')))
+
+    def m_list(I_, a, k, n):
+        v = I_.fresh('values', ObjS)
+        I_.ctx.assume(z3.Not(is_gen(v)))                 # list(...) is a list
+        return Obj(v, 'pyvalue')
+    sp.models['list'] = Func(m_list)
+    lazy = bool(ctx.choose(2, 'lazy'))
+    try:
+        r = I.call_function(find_function(EP + 'TransactionEvaluator.evaluate'), [node], {'lazy': lazy} if lazy else {}, self_obj=me)
+    except PyRaise:
+        ctx.cover('evaluate.raises')
+        return
+    if not lazy:
+        ctx.check('C03.evaluate_never_returns_a_generator_object', z3.BoolVal(False) if not isinstance(r, Obj) else z3.Not(is_gen(r.expr)), 'property')
+    ctx.cover('evaluate.returns[lazy=%s]' % lazy)
+
+
 def harnesses(tier):
     return [Harness('validate_ast', h_validate_ast, [EP + 'validate_ast']),
-            Harness('lemma.children_ok', h_children_reading, [])]
+            Harness('lemma.children_ok', h_children_reading, []),
+            Harness('TransactionEvaluator.evaluate.values', h_evaluate_yields_values, [EP + 'TransactionEvaluator.evaluate'])]
 
 
 # ------------------------------------------------------------------------------------------
@@ -114,9 +145,50 @@ FORBIDDEN_NODE_TYPES = {'Lambda', 'FunctionDef', 'AsyncFunctionDef', 'ClassDef',
                         'LShift', 'RShift', 'BitOr', 'BitXor', 'BitAnd', 'FloorDiv', 'Invert', 'Is', 'IsNot', 'TypeAlias', 'Match'}
 
 
+def _lazy_clause(mod):
+    """evaluate(..., lazy=...) is requested only by _eval_argument, and _eval_argument is used only for the iterable argument of the consuming builtins
+    inside _eval_Call (sum, any, all, next, min, max): nowhere else can a generator object travel as a value"""
+    cnode = mod.classes['TransactionEvaluator']
+    bad = []
+    for m in cnode.body:
+        if not isinstance(m, ast.FunctionDef):
+            continue
+        for c in ast.walk(m):
+            if isinstance(c, ast.Call) and isinstance(c.func, ast.Attribute) and c.func.attr == 'evaluate' and (len(c.args) > 1 or any(k.arg == 'lazy' for k in c.keywords)):
+                if m.name != '_eval_argument':
+                    bad.append('%s passes lazy to evaluate (line %d)' % (m.name, c.lineno))
+            if isinstance(c, ast.Call) and isinstance(c.func, ast.Attribute) and c.func.attr == '_eval_argument' and m.name != '_eval_Call':
+                bad.append('%s calls _eval_argument (line %d)' % (m.name, c.lineno))
+    # inside _eval_Call: each _eval_argument(...) result flows straight into one of the consuming builtins (directly, or through a local that is only
+    # passed to them and to _close_generator)
+    call = [m for m in cnode.body if isinstance(m, ast.FunctionDef) and m.name == '_eval_Call']
+    consumers = {'sum', 'any', 'all', 'next', 'min', 'max'}
+    if call:
+        parents = {}
+        for n in ast.walk(call[0]):
+            for ch in ast.iter_child_nodes(n):
+                parents[ch] = n
+        for c in ast.walk(call[0]):
+            if isinstance(c, ast.Call) and isinstance(c.func, ast.Attribute) and c.func.attr == '_eval_argument':
+                p_ = parents.get(c)
+                if isinstance(p_, ast.Call) and isinstance(p_.func, ast.Name) and p_.func.id in consumers:
+                    continue
+                if isinstance(p_, ast.Assign) and len(p_.targets) == 1 and isinstance(p_.targets[0], ast.Name):
+                    local = p_.targets[0].id
+                    uses = [u for u in ast.walk(call[0]) if isinstance(u, ast.Name) and u.id == local and isinstance(u.ctx, ast.Load)]
+                    ok_uses = all(isinstance(parents.get(u), ast.Call) and ((isinstance(parents[u].func, ast.Name) and parents[u].func.id in consumers) or
+                                                                               (isinstance(parents[u].func, ast.Attribute) and parents[u].func.attr == '_close_generator')) for u in uses)
+                    if ok_uses:
+                        continue
+                bad.append('_eval_argument result used outside sum/any/all/next/min/max (line %d)' % c.lineno)
+    return frames.Clause(EP + 'TransactionEvaluator.evaluate#lazy_only_for_consuming_functions', not bad,
+                         'lazy evaluation is requested by _eval_argument only, for the iterable of sum/any/all/next/min/max' if not bad else '; '.join(bad), kind='auxiliary')
+
+
 def structural(tier, res):
     out = []
     mod = extract.module('tally.expr_parser')
+    out.append(_lazy_clause(mod))
     classes = ['TransactionEvaluator', 'TransactionContext', 'ExpressionEvaluator', 'ExpressionContext']
     for cname in classes:
         cnode = mod.classes[cname]
